@@ -637,10 +637,23 @@ mod detail {
         ops: &[FlatOp<T>],
         nodes: &[FlatNode<T>],
     ) -> ExprIdxVec {
+        // A commutative operator between two numbers must not be preferred to a different
+        // operator of the same priority on its left that would lose its right operand.
+        let can_be_preferred = |bin_op_idx: usize| {
+            let op = &ops[bin_op_idx];
+            let prio = op.bin_op.op.prio;
+            ops[..bin_op_idx]
+                .iter()
+                .rev()
+                .find(|o| o.bin_op.op.prio <= prio)
+                .map(|o| o.bin_op.op.prio < prio || o.bin_op.idx == op.bin_op.idx)
+                .unwrap_or(true)
+        };
         let prio_increase =
             |bin_op_idx: usize| match (&nodes[bin_op_idx].kind, &nodes[bin_op_idx + 1].kind) {
                 (FlatNodeKind::Num(_), FlatNodeKind::Num(_))
-                    if ops[bin_op_idx].bin_op.op.is_commutative =>
+                    if ops[bin_op_idx].bin_op.op.is_commutative
+                        && can_be_preferred(bin_op_idx) =>
                 {
                     let prio_inc = 5;
                     &ops[bin_op_idx].bin_op.op.prio * 10 + prio_inc
